@@ -68,6 +68,7 @@ func run(s hist.Script, v *vt.V) {
 	env := ops.NewEnv(u, reg)
 	env.KeepCommitted = true
 	env.HoldListings = true
+	env.OverlapReads = true
 	defer env.CloseAll()
 	m := model.New(s.Immutable)
 	m.KeepCommitted = true
@@ -84,6 +85,10 @@ func run(s hist.Script, v *vt.V) {
 		}
 		if out.Held != "" {
 			v.Failf("held-listing", "op %d: %s", i, out.Held)
+			return
+		}
+		if out.Overlap != "" {
+			v.Failf("overlapping-readers", "op %d %+v: %s", i, op, out.Overlap)
 			return
 		}
 		kinds = append(kinds, fmt.Sprintf("%s%d", op.K, op.Mode))
@@ -132,7 +137,7 @@ func cfg() hist.Config {
 var prop = &vt.Prop[hist.Script]{
 	ID:   "C02",
 	Name: "MemAgreesWithModel",
-	Rule: "state-aware rapid generator of operation histories (<=40 ops, thorough <=60) over 3 (a quarter: 6) valid + 2 malformed repository names, 5 blobs, 6 manifest specs (image/index/opaque/malformed/wrong-shape/bad-descriptor, subjects present/dangling/blob), 4 tags, 2 upload slots; both tag modes; every Interface method and BlobWriter method; after every op the result is checked against the reference model and the touched repositories are swept (resolve/get of every blob, manifest, tag; referrers; listings), a listing sequence kept from one operation and run again after the next yields what it did or what a new listing does, the Config value the registry was made from is changed afterwards, full sweep at the end; non-trivial = the history contains a read/re-push after delete, a manifest with references, a dangling-tag read, a tag move, an immutable-mode refusal, a wrong-offset write, a committed upload or a non-empty referrers list; distinct = sequence of (op kind, mode)",
+	Rule: "state-aware rapid generator of operation histories (<=40 ops, thorough <=60) over 3 (a quarter: 6) valid + 2 malformed repository names, 5 blobs, 6 manifest specs (image/index/opaque/malformed/wrong-shape/bad-descriptor, subjects present/dangling/blob), 4 tags, 2 upload slots; both tag modes; every Interface method and BlobWriter method; after every op the result is checked against the reference model and the touched repositories are swept (resolve/get of every blob, manifest, tag; referrers; listings), a listing sequence kept from one operation and run again after the next yields what it did or what a new listing does, the Config value the registry was made from is changed afterwards, every reader is opened beside a second reader of content read earlier and closed twice, full sweep at the end; non-trivial = the history contains a read/re-push after delete, a manifest with references, a dangling-tag read, a tag move, an immutable-mode refusal, a wrong-offset write, a committed upload or a non-empty referrers list; distinct = sequence of (op kind, mode)",
 }
 
 func TestPropModel(t *testing.T) {
